@@ -57,6 +57,7 @@ DEFAULT = dict(
   p_massless=0.0,
   nuserdata=0,
   delays=0.0,
+  act_ball=True,  # allow joint transmissions on ball/free joints
   big_tree=0,  # force one chain of this many hinge dofs (inertia layout boundaries)
 )
 
@@ -477,8 +478,8 @@ class Gen:
       trn = P["act_trn"][rng.integers(len(P["act_trn"]))]
       tattr = None
       if trn in ("joint", "jointinparent"):
-        cands = self.joints if rng.random() < 0.3 else scal
-        cands = [j for j in cands if j[1] != "free"] or self.joints
+        cands = self.joints if (rng.random() < 0.3 and P["act_ball"]) else scal
+        cands = [j for j in cands if j[1] != "free"] or (self.joints if P["act_ball"] else [])
         if not cands:
           continue
         j = cands[rng.integers(len(cands))]
